@@ -9,7 +9,7 @@ from vlib import Broken, log
 FAMILIES = {
     "C06": "fam_klm",
     "C02": "fam_persist", "C03": "fam_persist", "C07": "fam_persist",
-    "C10": "fam_hier", "C11": "fam_comp", "C14": "fam_rpc", "C12": "fam_comp", "C13": "fam_comp", "C17": "fam_comp", "C18": "fam_comp", "C19": "fam_comp",
+    "C10": "fam_hier", "C11": "fam_comp", "C20": "fam_dig", "C14": "fam_rpc", "C12": "fam_comp", "C13": "fam_comp", "C17": "fam_comp", "C18": "fam_comp", "C19": "fam_comp",
     "C09": "fam_buf", "C15": "fam_buf", "C16": "fam_buf",
     "C01": "fam_store", "C04": "fam_store", "C05": "fam_store", "C08": "fam_store",
 }
